@@ -86,7 +86,7 @@ for _u in family.composite_units():
     if _u.name == "composite:enum-default-nonzero":
         _u.props = ["C02"]
     elif "composite" in _u.tags:
-        _u.props = ["C01", "C02", "C07", "C12", "C16"]
+        _u.props = ["C01", "C02", "C07", "C12", "C16"] + (["C11"] if ("imports" in _u.tags or _u.name == "composite:same-named-nested") else [])
     _mk_unit(_u)
 
 
